@@ -388,6 +388,26 @@ class CheckedCoverageInstrumentation(python3_11.CheckedCoverageInstrumentation):
     def should_instrument_line(self, instr: Instr, lineno: int | _UNSET | None) -> bool:  # noqa: D102
         return super().should_instrument_line(instr, lineno) and instr.name != "END_FOR"
 
+    @staticmethod
+    def _cleared_locals(cfg: cf.CFG) -> set[str]:
+        """The locals an inlined comprehension saves with LOAD_FAST_AND_CLEAR.
+
+        The value saved is restored by a STORE_FAST after the comprehension; it usually
+        is NULL (the variable was unbound), so the variable must not be read there.
+
+        Args:
+            cfg: The control flow graph of the code object.
+
+        Returns:
+            The names of these locals.
+        """
+        return {
+            instr.arg
+            for block in cfg.bytecode_cfg
+            for instr in block
+            if isinstance(instr, Instr) and instr.name == "LOAD_FAST_AND_CLEAR"
+        }
+
     def visit_local_access(  # noqa: D102, PLR0917
         self,
         ast_info: transformer.AstInfo | None,
@@ -411,7 +431,13 @@ class CheckedCoverageInstrumentation(python3_11.CheckedCoverageInstrumentation):
                     InstrumentationConstantLoad(value=instr.lineno),
                     InstrumentationConstantLoad(value=instr_original_index),
                     InstrumentationConstantLoad(value=instr.arg),  # type: ignore[arg-type]
-                    InstrumentationFastLoad(name=instr.arg),  # type: ignore[arg-type]
+                    # LOAD_FAST_AND_CLEAR is emitted for the iteration variable of an inlined
+                    # comprehension, which usually is unbound at that point: loading it would
+                    # put a NULL on the stack and crash the interpreter in the tracer call.
+                    InstrumentationConstantLoad(value=None)
+                    if instr.name == "LOAD_FAST_AND_CLEAR"
+                    or (instr.name == "STORE_FAST" and instr.arg in self._cleared_locals(cfg))
+                    else InstrumentationFastLoad(name=instr.arg),  # type: ignore[arg-type]
                 ),
             ),
             instr.lineno,
